@@ -52,6 +52,13 @@ def calc_masks(item):
     return out
 
 
+def _is_get(callee):
+    """slice element access spelled .get(i) (turbofish of a generic instance stripped)."""
+    import re
+
+    return re.sub(r"::<[^<>]*>$", "", callee).endswith("<impl [T]>::get")
+
+
 def run(ctx):
     prog = ctx.prog
     wm = model(ctx)
@@ -179,7 +186,8 @@ def run(ctx):
         det = ""
         for p in Explorer(mb, max_paths=3000).explore():
             for (_b, callee, args, _r) in p.events:
-                if callee.endswith("Index<I>>::index") and len(args) == 2:
+                # element access spelled [..] or .get(..) (the same element either way)
+                if (callee.endswith("Index<I>>::index") or _is_get(callee)) and len(args) == 2:
                     base = args[0]
                     if any(isinstance(t, tuple) and t[0] == "fld" and t[2] == "shader_values" for t in walk(base)):
                         ix = N(args[1])
@@ -330,6 +338,13 @@ def run(ctx):
                     i_f = {t[2] for t in walk(ix[0][2]) if isinstance(t, tuple) and t[0] == "fld"}
                     c_f = {t[2] for t in walk(N(cmp_[0])) if isinstance(t, tuple) and t[0] == "fld"}
                     ok = 1 in i_f and 0 in c_f
+            elif isinstance(r, tuple) and r[0] == "call" and _is_get(r[1]) and len(r[2]) == 2:
+                # the same lookup spelled nodes.get(entry.1)
+                cmp_ = [d for d, c in p.conds if isinstance(N(d), tuple) and N(d)[0] == "bin" and N(d)[1] in ("Eq", "Ne") and ("v", 2) in list(walk(N(d)))]
+                if cmp_ and any(isinstance(x, tuple) and x[0] == "fld" and x[2] == "nodes" for x in walk(r[2][0])):
+                    i_f = {t[2] for t in walk(r[2][1]) if isinstance(t, tuple) and t[0] == "fld"}
+                    c_f = {t[2] for t in walk(N(cmp_[0])) if isinstance(t, tuple) and t[0] == "fld"}
+                    ok = ok or (1 in i_f and 0 in c_f)
         ctx.ob("NODES", "find_node", ok, "find_node compares entry.0 with the selector and returns nodes[entry.1]", nb.file, nb.line)
     else:
         ctx.fail_closed("NODES", "shpk::ShaderPackage::find_node not found")
